@@ -278,7 +278,7 @@ def direct_cases(ctx, tab):
         sat = sats[k % len(sats)]
         chan = 3 + (k // len(sats)) % 3
         nums, prt, ict, space, info = gen_pass(rng, ctx.thorough)
-        if (ctx.thorough or getattr(ctx, "escalated", False)) and k < 4:
+        if (ctx.thorough or getattr(ctx, "escalated", False)) and k < (4 if ctx.thorough else 2):
             # LONG passes (several thousand lines, a little more than a multiple of 4000 / 4096): the 51-line window runs over
             # the whole pass - the last lines are smoothed exactly like all others, whatever the length
             L = [4096, 4000, 8192, 12000][k] + rng.randint(1, 21)
